@@ -303,6 +303,21 @@ theorem resolve_total_of_width (c : SConn) (w : Nat) (hw : c.width = .ok w) (hne
   obtain ⟨r, hr, hrd, hre⟩ := resolve_total c bs hd hne (needR c) (Nat.le_refl _)
   exact ⟨r, hr, by rw [denote_width r bs hrd, hl], hre⟩
 
+/-- **The resolver answers exactly for what denotes something.** For an expression without empty concatenations and with fuel
+    `needR c` or more: `SliceResolver` returns **iff** the expression has a denotation — every index in range and every slice
+    non-empty at every depth.  One out-of-range index or empty range anywhere inside, and it raises (C02's index clause, by the
+    resolver alone); everything else it resolves (C03's acceptance). -/
+theorem resolver_accepts_iff (c : SConn) (hne : c.noEmpty = true) (fuel : Nat) (hf : needR c ≤ fuel) :
+    (∃ r, resolveSliceable fuel c = .ok r) ↔ ∃ bs, c.denote = .ok bs := by
+  constructor
+  · rintro ⟨r, hr⟩
+    obtain ⟨w, hw⟩ := (resolve_only_denoting fuel).1 c r hr
+    obtain ⟨bs, hd, _⟩ := width_denote c w hw
+    exact ⟨bs, hd⟩
+  · rintro ⟨bs, hd⟩
+    obtain ⟨r, hr, _⟩ := resolve_total c bs hd hne fuel hf
+    exact ⟨r, hr⟩
+
 /-- **In-range indices and non-empty unit-step ranges are accepted — all the way into the package.** An expression whose every
     index is an integer or a unit-step range (at any depth, over any mix of slices and concatenations), which denotes something
     and names declared signals, is resolved *and exported*, and the target the netlisters read holds exactly its bits, in order.
